@@ -33,7 +33,10 @@ Theorem C04_partinv_unfolds : forall qs tbl p,
   p_faulty_power p = spow tbl (faults p) /\ recovering_power p = spow tbl (recoveries p) /\
   QInv qs tbl (faults p) (sectors p ∖ terminated p) (expirations p) /\
   ETInv (terminated p) (early_terminated p).
-Proof. intros qs tbl p []. repeat split; assumption. Qed.
+Proof.
+  intros qs tbl p H. destruct H. unfold live_sectors in *.
+  do 12 (split; [assumption|]). assumption.
+Qed.
 
 (* a live sector is in exactly one expiration set, as on-time xor early *)
 Theorem C04_live_sector_in_exactly_one_set : forall qs tbl p n,
@@ -92,3 +95,7 @@ Example C04_nonvacuous :
   validate_state (st_part st) = true /\ part_memos_b (st_tbl st) (st_part st) = true /\
   snd (fst (step st (TerminateSectors 200 [1]%N))) = 16.
 Proof. vm_compute. repeat split. Qed.
+
+(* the caller obligations are satisfiable on that history, so the theorem applies to it *)
+Example C04_nonvacuous_inv : StInv (run (init 4 1) ex_ops).
+Proof. apply partinv_reachable; [reflexivity|]. apply all_wf_b_sound. vm_compute. reflexivity. Qed.
